@@ -7,6 +7,11 @@ from . import interp
 from . import expr as X
 
 
+def _hi(ck):
+    """Upper end (exclusive) of the thread / rank counts evaluated: 1..8 in the quick tier, 1..32 in the thorough tier."""
+    return 33 if getattr(ck, "tier", "quick") == "thorough" else 9
+
+
 def _opaque(P, f, known):
     """Runtime functions f calls that the index-only evaluation does not enter (other than the known ones)."""
     return sorted({c.callee for c in f.calls() if c.callee and c.callee not in known and P.fn_opt(c.callee) is not None})
@@ -20,7 +25,7 @@ def check_broadcast(ck, P, rid):
         return
     inst = "every-rank@mpi_control_msg_broadcast"
     bad = None
-    for n in range(1, 9):
+    for n in range(1, _hi(ck)):
         outs = interp.Interp(f, max_visits=n + 4).run({"n_nodes": n, "ctrl": 1})
         done = [o for o in outs if o.how == "exit"]
         if outs and all(o.how == "loop-bound" for o in outs):
@@ -45,7 +50,7 @@ def check_broadcast(ck, P, rid):
         ck.violated(rid, inst, f.where, "with %d rank(s) the broadcast sends to %s: %s — a GVT start or termination notice that a rank never gets leaves the others waiting for it forever"
                     % (n, dests, ("rank(s) %s get nothing" % missing) if missing else ("destination(s) %s do not exist" % extra)), cfg)
     else:
-        ck.holds(rid, inst, f.where, "for 1..8 ranks the broadcast sends exactly one notice to every rank 0..n-1 (its own included)", cfg)
+        ck.holds(rid, inst, f.where, "for 1..%d ranks the broadcast sends exactly one notice to every rank 0..n-1 (its own included)" % (_hi(ck) - 1), cfg)
 
 
 def check_node_minimum(ck, P, rid):
@@ -56,7 +61,7 @@ def check_node_minimum(ck, P, rid):
         return
     inst = "every-thread@gvt_node_reduce"
     bad = None
-    for n in range(1, 9):
+    for n in range(1, _hi(ck)):
         for p in range(n):
             env = {"global_config.n_threads": n}
             for k in range(n):
@@ -74,7 +79,7 @@ def check_node_minimum(ck, P, rid):
     if bad:
         ck.violated(rid, inst, f.where, "with %d thread(s), when thread %d holds the smallest local minimum the node's value is not it: that thread's events are not covered by the GVT" % (bad[0], bad[1]), cfg)
     else:
-        ck.holds(rid, inst, f.where, "for 1..8 threads and every position of the smallest local minimum, the node's value is that minimum", cfg)
+        ck.holds(rid, inst, f.where, "for 1..%d threads and every position of the smallest local minimum, the node's value is that minimum" % (_hi(ck) - 1), cfg)
 
 
 def for_indices(loop, idx_name, env, limit=64):
@@ -144,7 +149,7 @@ def check_sent_totals(ck, P, rid):
         ck.inconclusive(rid, inst, a.where, "total_sent is not indexed by the loop variable", cfg)
         return
     bad = None
-    for n in range(1, 9):
+    for n in range(1, _hi(ck)):
         got = for_indices(lp, idx.name, {"n_nodes": n})
         if got is None:
             ck.inconclusive(rid, inst, lp.where, "loop header is not a function of the index and n_nodes alone", cfg)
@@ -154,7 +159,7 @@ def check_sent_totals(ck, P, rid):
     if bad:
         ck.violated(rid, inst, lp.where, "with %d rank(s) the send counts are accumulated for ranks %s only: a rank whose incoming count is left out stops waiting before all its messages of the closed colour arrived" % (bad[0], bad[1]), cfg)
     else:
-        ck.holds(rid, inst, lp.where, "for 1..8 ranks the loop adds the send counts of every rank 0..n-1", cfg)
+        ck.holds(rid, inst, lp.where, "for 1..%d ranks the loop adds the send counts of every rank 0..n-1" % (_hi(ck) - 1), cfg)
 
 
 def check_spawn_join(ck, P, rid):
@@ -166,10 +171,10 @@ def check_spawn_join(ck, P, rid):
         return
     inst = "every-thread@parallel_simulation"
     bad = None
-    for n in range(1, 9):
+    for n in range(1, _hi(ck)):
         env = {"global_config.n_threads": n, "global_config.core_binding": 0}
         for k in range(n + 2):
-            env["thrs[%d]" % k] = 100 + k
+            env["thrs[%d]" % k] = 1000 + k
         outs = interp.Interp(f, stubs={"thread_start": lambda a, e: 0, "thread_affinity_set": lambda a, e: 0}, max_visits=n + 4).run(env)
         done = [o for o in outs if o.how == "exit"]
         if outs and all(o.how == "loop-bound" for o in outs):
@@ -179,7 +184,7 @@ def check_spawn_join(ck, P, rid):
             ck.inconclusive(rid, inst, f.where, "start / join loops could not be evaluated for %d thread(s)" % n, cfg)
             return
         started = sorted(a[2] for name, a, e in done[0].calls if name == "thread_start" and len(a) > 2 and a[2] is not None)
-        joined = sorted(a[0] - 100 for name, a, e in done[0].calls if name == "thread_wait" and a and a[0] is not None)
+        joined = sorted(a[0] - 1000 for name, a, e in done[0].calls if name == "thread_wait" and a and a[0] is not None)
         n_start = len([1 for name, a, e in done[0].calls if name == "thread_start"])
         n_join = len([1 for name, a, e in done[0].calls if name == "thread_wait"])
         if n_start != len(started) or n_join != len(joined):
@@ -195,7 +200,7 @@ def check_spawn_join(ck, P, rid):
     elif bad:
         ck.violated(rid, inst, f.where, "with %d thread(s) %s" % bad, cfg)
     else:
-        ck.holds(rid, inst, f.where, "for 1..8 threads one worker is started per id 0..n-1 and every handle is joined before the global finalisation", cfg)
+        ck.holds(rid, inst, f.where, "for 1..%d threads one worker is started per id 0..n-1 and every handle is joined before the global finalisation" % (_hi(ck) - 1), cfg)
 
 
 def check_array_loops(ck, P, rid, file_suffix, array, count_key, floor, what):
@@ -223,7 +228,7 @@ def check_array_loops(ck, P, rid, file_suffix, array, count_key, floor, what):
             inst = "every-%s@%s:%d" % (what, f.name, n)
             bad = None
             unknown = False
-            for cnt in range(1, 9):
+            for cnt in range(1, _hi(ck)):
                 got = for_indices(lp, idx, {count_key: cnt})
                 if got is None:
                     unknown = True
